@@ -18,7 +18,8 @@ use read_fonts::tables::mvar::Mvar;
 use read_fonts::tables::variations::{DeltaSetIndex, DeltaSetIndexMap, ItemVariationStore};
 use read_fonts::tables::vvar::Vvar;
 use font_types::{F26Dot6, Fixed, Point, Tag};
-use read_fonts::tables::glyf::{PointCoord, PointFlags, PointMarker};
+use read_fonts::tables::glyf::{CompositeGlyphFlags, Glyf, Glyph, PointCoord, PointFlags, PointMarker};
+use read_fonts::tables::loca::Loca;
 use read_fonts::tables::gvar::GlyphDelta;
 use read_fonts::tables::variations::{Tuple, TupleDelta, TupleIndex, TupleVariation, TupleVariationCount, TupleVariationData, TupleVariationHeader};
 use read_fonts::{FontData, FontRead, ReadError};
@@ -495,6 +496,7 @@ fn classify(ctx: &mut Ctx, req: &str, resp: &str) {
     for k in kinds {
         ctx.count(&format!("{cmd}.{k}"));
     }
+    ctx.count(&format!("{cmd}.cases"));
 }
 
 // ------------------------------------------------------------------------------------------------
@@ -532,7 +534,7 @@ fn ask_tvhdr(ctx: &mut Ctx, ac: u16, bytes: &[u8]) {
 
 fn run_tvhdr(ctx: &mut Ctx) {
     for flags in [0u16, 0x8000, 0x4000, 0xC000, 0x2000, 0xE000, 0xFFFF, 0x0FFF, 0x8001] {
-        for ac in [0u16, 1, 2, 5] {
+        for ac in [0u16, 1, 3] {
             let mut b = B::new();
             b.f16(ctx.rng.below(40) as u16).f16(flags);
             let n = (flags & 0x8000 != 0) as usize + 2 * (flags & 0x4000 != 0) as usize;
@@ -856,7 +858,7 @@ fn run_gvar(ctx: &mut Ctx) {
 }
 
 fn run_cvard(ctx: &mut Ctx) {
-    let rounds = if ctx.thorough { 40 } else { 8 };
+    let rounds = if ctx.thorough { 40 } else { 6 };
     for round in 0..rounds {
         let ac = match round % 4 {
             0 => 0,
@@ -1259,9 +1261,9 @@ fn ask_mvar(ctx: &mut Ctx, tags: &[u32], coords: &[i16], bytes: &[u8]) {
 }
 
 fn run_mvar(ctx: &mut Ctx) {
-    let rounds = if ctx.thorough { 30 } else { 8 };
+    let rounds = if ctx.thorough { 32 } else { 6 };
     for round in 0..rounds {
-        let n = [0usize, 1, 2, 3, 5, 8, 10, 4][round % 8];
+        let n = [3usize, 1, 10, 0, 5, 2, 8, 4][round % 8];
         let mut tags: Vec<[u8; 4]> = MVAR_TAGS.iter().map(|t| **t).collect();
         ctx.rng.shuffle(&mut tags);
         tags.truncate(n);
@@ -1450,6 +1452,157 @@ fn run_acc(ctx: &mut Ctx) {
     }
 }
 
+// ------------------------------------------------------------------------------------------------
+// Gvar::phantom_point_deltas (+ find_glyph_and_point_count):
+// `hv.phantom <gid> <gvar hex> <default spec> <n> <spec…> <coords…>`
+
+/// one generated glyph: `None` = empty, `Ok(points)` = simple, `Err(components)` = composite
+type GlyphSpec = Option<Result<usize, Vec<(bool, u16)>>>;
+
+fn glyf_loca(glyphs: &[GlyphSpec]) -> (Vec<u8>, Vec<u8>) {
+    let mut g = B::new();
+    let mut offs = vec![0u32];
+    for spec in glyphs {
+        match spec {
+            None => {}
+            Some(Ok(k)) => {
+                g.i16(1).i16(0).i16(0).i16(100).i16(100).u16(*k as u16 - 1).u16(0);
+                for _ in 0..*k {
+                    g.u8(1);
+                }
+                for i in 0..2 * *k {
+                    g.i16(i as i16 * 7 - 20);
+                }
+            }
+            Some(Err(comps)) => {
+                g.i16(-1).i16(0).i16(0).i16(100).i16(100);
+                for (i, (metrics, gid)) in comps.iter().enumerate() {
+                    let more = if i + 1 < comps.len() { 0x0020 } else { 0 };
+                    g.u16(0x0001 | more | if *metrics { 0x0200 } else { 0 }).u16(*gid).i16(3).i16(-3);
+                }
+            }
+        }
+        if g.len() % 2 == 1 {
+            g.u8(0);
+        }
+        offs.push(g.len() as u32);
+    }
+    let mut l = B::new();
+    for o in offs {
+        l.u32(o);
+    }
+    (g.v, l.v)
+}
+
+/// what the real glyf / loca code says about glyph `gid` (the parameter of the Lean model)
+fn glyph_spec(glyf: &Glyf, loca: &Loca, gid: u32) -> Option<String> {
+    Some(match loca.get_glyf(GlyphId::new(gid), glyf) {
+        Err(ReadError::OutOfBounds) => "eO".into(),
+        Err(ReadError::MalformedData(_)) => "eM".into(),
+        Err(_) => return None,
+        Ok(None) => "n".into(),
+        Ok(Some(Glyph::Simple(s))) => format!("s{}", s.num_points()),
+        Ok(Some(Glyph::Composite(c))) => {
+            let parts: Vec<String> = c.components().map(|c| format!("{}:{}", c.flags.contains(CompositeGlyphFlags::USE_MY_METRICS) as u8, c.glyph.to_u32())).collect();
+            format!("c{}", parts.join(","))
+        }
+    })
+}
+
+fn ask_phantom(ctx: &mut Ctx, gid: u32, coords: &[i16], glyf_b: &[u8], loca_b: &[u8], n_glyphs: usize, bytes: &[u8]) {
+    let (Ok(glyf), Ok(loca)) = (Glyf::read(FontData::new(glyf_b)), Loca::read(FontData::new(loca_b), true)) else { return };
+    let specs: Option<Vec<String>> = (0..n_glyphs as u32 + 1).map(|g| glyph_spec(&glyf, &loca, g)).collect();
+    let (Some(specs), Some(dflt)) = (specs, glyph_spec(&glyf, &loca, 0xFFFF)) else { return };
+    let req = format!("hv.phantom {} {} {} {} {}{}", gid, hex(bytes), dflt, specs.len(), specs.join(" "), coord_args(coords));
+    let cs = f2(coords);
+    let r = catch(|| {
+        let s = match Gvar::read(FontData::new(bytes)) {
+            Err(e) => err_str(&e),
+            Ok(g) => match g.phantom_point_deltas(&glyf, &loca, &cs, GlyphId::new(gid)) {
+                Err(e) => err_str(&e),
+                Ok(None) => "none".into(),
+                Ok(Some(ps)) => ps.iter().map(|p| format!("{},{}", p.x.to_bits(), p.y.to_bits())).collect::<Vec<_>>().join(" "),
+            },
+        };
+        (s, Seen::default())
+    });
+    settle(ctx, req, bytes, r);
+}
+
+fn run_phantom(ctx: &mut Ctx) {
+    let rounds = if ctx.thorough { 30 } else { 6 };
+    for round in 0..rounds {
+        let n = 3 + ctx.rng.below(4) as usize;
+        let mut glyphs: Vec<GlyphSpec> = vec![];
+        for k in 0..n {
+            glyphs.push(match ctx.rng.below(6) {
+                0 => None,
+                1 | 2 => Some(Ok(1 + ctx.rng.below(5) as usize)),
+                _ => {
+                    let nc = 1 + ctx.rng.below(3) as usize;
+                    Some(Err((0..nc)
+                        .map(|_| {
+                            let target = match ctx.rng.below(8) {
+                                0 => k as u16,                 // itself: the recursion limit
+                                1 => n as u16 + ctx.rng.below(3) as u16, // beyond loca
+                                2 => 0xFFFF,
+                                _ => ctx.rng.below(n as u64) as u16,
+                            };
+                            (ctx.rng.chance(1, 2), target)
+                        })
+                        .collect()))
+                }
+            });
+        }
+        if round == 0 {
+            // a chain 0 -> 1 -> 2 -> … of USE_MY_METRICS composites ending in a simple glyph
+            glyphs = (0..n).map(|k| if k + 1 < n { Some(Err(vec![(false, k as u16), (true, k as u16 + 1)])) } else { Some(Ok(3)) }).collect();
+        }
+        let (glyf_b, loca_b) = glyf_loca(&glyphs);
+        let axis_count = 1 + ctx.rng.below(2) as u16;
+        let gv_glyphs: Vec<Vec<u8>> = glyphs
+            .iter()
+            .map(|g| {
+                let pts = match g {
+                    None => 0,
+                    Some(Ok(k)) => *k,
+                    Some(Err(c)) => c.len(),
+                };
+                let t = tuple_store(&mut ctx.rng, axis_count, true, 0, 0, pts + 4);
+                let mut v = t.v;
+                if v.len() % 2 == 1 {
+                    v.push(0);
+                }
+                v
+            })
+            .collect();
+        let spec = GvarSpec { axis_count, n_shared: 0, glyphs: gv_glyphs, long: true };
+        let b = gvar_table(&mut ctx.rng, &spec);
+        let coords = hot_coords(&mut ctx.rng, axis_count);
+        for (j, v) in variants(&mut ctx.rng, &b, 6).into_iter().enumerate() {
+            if j == 0 {
+                for gid in edge32(&[n as u64]).into_iter().chain(0..n as u32) {
+                    ask_phantom(ctx, gid, &coords, &glyf_b, &loca_b, n, &v);
+                }
+            } else if j % 3 == 0 {
+                ask_phantom(ctx, (j % n) as u32, &coords, &glyf_b, &loca_b, n, &v);
+            }
+        }
+        ctx.count("phantom");
+    }
+    // the recursion limit: a chain of 70 USE_MY_METRICS composites (64 levels are allowed)
+    for len in [63usize, 64, 65, 66, 70] {
+        let glyphs: Vec<GlyphSpec> = (0..len + 1).map(|k| if k < len { Some(Err(vec![(true, k as u16 + 1)])) } else { Some(Ok(2)) }).collect();
+        let (glyf_b, loca_b) = glyf_loca(&glyphs);
+        let gv: Vec<Vec<u8>> = (0..len + 1).map(|k| if k == len { vec![0, 1, 0, 8, 0, 4, 0x80, 0, 0x40, 0, 0x85, 0x05, 1, 2, 3, 4, 5, 6] } else { vec![] }).collect();
+        let b = gvar_table(&mut ctx.rng, &GvarSpec { axis_count: 1, n_shared: 0, glyphs: gv, long: true });
+        for gid in [0u32, 1, 2, len as u32] {
+            ask_phantom(ctx, gid, &[0x4000], &glyf_b, &loca_b, len + 1, &b.v);
+        }
+        ctx.count("phantom.chain");
+    }
+}
+
 pub fn run(ctx: &mut Ctx) {
     run_dsim(ctx);
     run_ivs(ctx);
@@ -1461,4 +1614,5 @@ pub fn run(ctx: &mut Ctx) {
     run_cvard(ctx);
     run_gvar(ctx);
     run_acc(ctx);
+    run_phantom(ctx);
 }
